@@ -4,7 +4,7 @@
     "same key" is stated as "same pre-image bytes" (no assumption on SHA-256), and
     "different key" is exact up to SHA-256 collisions. *)
 From Coq Require Import List NArith ZArith String Bool Permutation.
-From Memento Require Import Codec.Json Codec.ArgHash Codec.ArgHashProofs.
+From Memento Require Import Codec.Json Codec.ArgHash Codec.ArgHashProofs Codec.ArgHashInj.
 Import ListNotations.
 Open Scope N_scope.
 
@@ -63,3 +63,55 @@ Example C04_presentations_witness :
   pre (effective P [] [] [AInt 1; AInt 2; AInt 3] []) = pre (effective P [(u "b", AInt 2)] [] [AInt 1; AInt 3] []) /\
   effective P [] [] [AInt 1; AInt 2; AInt 3; AInt 4] [] = None.
 Proof. vm_compute. auto. Qed.
+
+(** every presentation (positional / keyword / partial) of a call has exactly the key of the
+    all-keyword presentation of the binding it produces: for any signature and any presentation
+    that binds, passing the resulting binding by keyword gives that same binding back *)
+Theorem C04_any_presentation_is_its_all_keyword_presentation : forall params pkw pargs args kw eff,
+  effective params pkw pargs args kw = Some eff ->
+  NoDup (map fst eff) /\ effective params [] [] [] eff = Some eff.
+Proof.
+  intros params pkw pargs args kw eff H. split.
+  - exact (effective_nodup _ _ _ _ _ _ H).
+  - exact (presentation_equals_all_keyword _ _ _ _ _ _ H).
+Qed.
+Print Assumptions C04_any_presentation_is_its_all_keyword_presentation.
+
+(** positional arguments fixed by partial application are positional arguments of the call, and
+    keywords fixed by partial application are keywords of the call (any signature with distinct
+    parameter names, any lengths: both sides refuse the same over-long argument lists) *)
+Theorem C04_partial_application_is_transparent : forall params pargs args pkw kw,
+  NoDup params ->
+  effective params [] pargs args kw = effective params [] [] (pargs ++ args) kw /\
+  effective params pkw [] [] kw = effective params [] [] [] (pkw ++ kw).
+Proof.
+  intros params pargs args pkw kw H. split.
+  - exact (partial_positionals_are_positionals params pargs args kw H).
+  - exact (partial_keywords_are_keywords params pkw kw).
+Qed.
+Print Assumptions C04_partial_application_is_transparent.
+
+(** the encoding that is hashed distinguishes all normalized values: different values (of any
+    type, at any depth), different JSON values. PARTIAL with respect to the property: the last
+    step to the key (the text rendering of the JSON value, and SHA-256) is not proved injective;
+    it is exercised by the correspondence on the exact pre-image bytes *)
+Theorem C04_encoding_injective_partial : forall a b,
+  tagfree a = true -> tagfree b = true -> enc a = enc b -> a = b.
+Proof. intros a b Ha Hb E. exact (enc_injective a b Ha Hb E). Qed.
+Print Assumptions C04_encoding_injective_partial.
+
+(** the restriction to normalized values is needed: a dictionary spelled like the tagged form
+    of a date is encoded (and keyed) like that date. The implementation's normalization turns
+    such a dictionary into the date before the body runs (checked by the harness), so the two
+    calls do bind equal normalized values *)
+Theorem C04_tagged_dictionary_is_the_date_refuted :
+  exists a b, a <> b /\ enc a = enc b /\ tagfree a = true /\ tagfree b = false.
+Proof. exact enc_tagged_dict_collides. Qed.
+Print Assumptions C04_tagged_dictionary_is_the_date_refuted.
+
+(** non-vacuity: a nested value with every constructor is tag-free *)
+Example C04_tagfree_witness :
+  tagfree (ADict [(u "a", AList [AInt 1; AFloat "1.0"; ABool true; ANone; AStr (u "x")]);
+                  (u "d", ADate (u "2020-01-02")); (u "t", ADateTime (u "2020-01-02T00:00:00+00:00"));
+                  (u "f", AFn (u "m:f") [AInt 1] [(u "k", ADict [])] [u "p"])]) = true.
+Proof. vm_compute. reflexivity. Qed.
